@@ -11,7 +11,7 @@ package cumulus
 // column; every earlier builder is kept; a row that is not recognised or fails appends nothing. An FX
 // comment row only extends the description of the last builder. Quiet: nothing is written to the
 // process's standard output.
-//@ def wfParserCU(p *parser) bool := p != nil && p.registry != nil && p.registry.accounts != nil && wfCommodities(p.registry.commodities)
+//@ def wfParserCU(p *parser) bool := p != nil && p.registry != nil && wfAccounts(p.registry.accounts) && wfCommodities(p.registry.commodities)
 //@     && p.registry.accounts.index != p.registry.commodities.index && validAccount(p.account)
 //
 //@ func parseDecimal
